@@ -1,4 +1,5 @@
 import SJ.Generated.Consts
+import SJ.Proofs.ParseWF
 import SJ.Proofs.CopyIndep
 /-
 C16 — Copied strings decouple results from the input buffer; Clone is independent.
@@ -22,5 +23,23 @@ open SJ SJ.CopyIndep in
 /-- a string reference with the buffer flag never looks at `Message` -/
 theorem C16_string_ref (pj : PJ) (m : Bytes) (o l : UInt64) (h : (o &&& wSTRINGBUFBIT == 0) = false) :
     stringByteAt (withMsg pj m) o l = stringByteAt pj o l := stringByteAt_withMsg pj m o l h
+
+
+open SJ SJ.ParseDefs in
+/-- **With string copying, once `Parse`/`ParseND` has returned, the input buffer is irrelevant**: for every input the
+    parser accepts and every later content of `Message` (overwritten, reused, freed) the complete ordered read-back
+    through the iterator API is unchanged. (Closes the residue "stage 2 sets the buffer flag on every string in
+    copy mode": `Stage2WF.stage2_wf` proves `Copied` for the ghost document.) -/
+theorem C16_parse_copy_indep (nd : Bool) (input : Bytes) (pj : PJ) (hsz : SizeOK (trimSpace input))
+    (h : parseAny { copyStrings := true } nd input = .ok pj) (scribble : Bytes) :
+    owalk (CopyIndep.withMsg pj scribble) = owalk pj := SJ.ParseWF.parse_copy_indep nd input pj hsz h scribble
+
+open SJ SJ.ParseDefs SJ.Layout in
+/-- in copy mode every string value and key of a parse result refers to the string buffer -/
+theorem C16_parse_copied (nd : Bool) (input : Bytes) (pj : PJ) (hsz : SizeOK (trimSpace input))
+    (h : parseAny { copyStrings := true } nd input = .ok pj) :
+    ∃ lvs : List LVal, WalkLayout.OkRoots pj lvs 0 ∧ ∀ v ∈ lvs, CopyIndep.Copied pj v := by
+  obtain ⟨lvs, h1, _, h3, _⟩ := SJ.ParseWF.parse_wf _ nd input pj hsz h
+  exact ⟨lvs, h1, h3 rfl⟩
 
 end SJ.Properties.C16
